@@ -209,6 +209,7 @@ class Result:
         self.cls = self.where = self.extra = self.why = None
         self.features = set()
         self.bom_text = False
+        self.n_includes = 0      # xi:include elements processed (size of the expansion)
 
 
 def _attrs_event(e):
@@ -316,6 +317,7 @@ class Expander:
 
     def include(self, n, origin, where, depth, first_child=False):
         r = self.res
+        r.n_includes += 1
         fallbacks = [c for c in n.children if isinstance(c, El) and c.ns == XI and c.local == 'fallback']
         others = [c for c in n.children if isinstance(c, El) and c.ns == XI and c.local != 'fallback']
         if len(fallbacks) > 1:
@@ -512,6 +514,7 @@ class Graph:
         self.files = {}
         self.root = None
         self.meta = {}
+        self.expected = None
 
 
 class _Gen:
@@ -923,7 +926,11 @@ class _Gen:
         return self.g
 
 
+MAX_INCLUDES = 60     # bound on the size of an expansion (every inclusion costs the library a parser; fan-out multiplies along a chain)
+
+
 def gen_graph(rnd, profile=None):
+    """a graph whose reference expansion processes at most MAX_INCLUDES xi:include elements (g.expected = the expansion)"""
     if profile is None:
         tot = sum(w for _, w in PROFILES)
         x = rnd.random() * tot
@@ -932,4 +939,9 @@ def gen_graph(rnd, profile=None):
             if x < 0:
                 profile = name
                 break
-    return _Gen(rnd, profile).make()
+    for attempt in range(20):
+        g = _Gen(rnd, profile).make()
+        g.expected = expand(g.files, g.root)
+        if g.expected.n_includes <= MAX_INCLUDES:
+            break
+    return g
